@@ -862,7 +862,13 @@ func loadTasks(ctx context.Context, pgp *pgxpool.Pool, c config.Root) ([]*Task, 
 		if !ig.Enabled {
 			continue
 		}
+		referenced := map[string]bool{}
 		for _, scRef := range ig.Sources {
+			if referenced[scRef.Name] {
+				const tag = "integration %s references source %s more than once"
+				return nil, fmt.Errorf(tag, ig.Name, scRef.Name)
+			}
+			referenced[scRef.Name] = true
 			sc, ok := scByName[scRef.Name]
 			if !ok {
 				return nil, fmt.Errorf("finding source config for %s", scRef.Name)
